@@ -1600,7 +1600,7 @@ enum cc_stat cc_list_diter_replace(CC_ListIter *iter, void *element, void **out)
  */
 size_t cc_list_diter_index(CC_ListIter *iter)
 {
-    return iter->index - 1;
+    return iter->index;
 }
 
 /**
